@@ -29,6 +29,8 @@ class Num (F : Type) where
   trunc : F → F
   /-- `f64::abs` -/
   abs : F → F
+  /-- the exact integer part (truncation toward zero, no saturation) of a finite value -/
+  truncInt : F → Int
   /-- the value `num / den` (sign `neg`) nearest in `F`: decimal literals and constants -/
   ofRat : Bool → Nat → Nat → F
   /-- `str::parse::<f64>` on `sign? digits ('.' digits)?` strings -/
@@ -66,6 +68,7 @@ instance : Num Rat where
   beq := fun a b => decide (a = b)
   trunc := fun x => if x < 0 then -(((-x).floor : Int) : Rat) else ((x.floor : Int) : Rat)
   abs := fun x => if x < 0 then -x else x
+  truncInt := fun x => if x < 0 then -((-x).floor) else x.floor
   ofRat := fun neg n d => if neg then -((n : Rat) / (d : Rat)) else (n : Rat) / (d : Rat)
   parseDec := fun cs => (parseDecimalRat cs).map fun (neg, n, d) =>
     if neg then -((n : Rat) / (d : Rat)) else (n : Rat) / (d : Rat)
@@ -94,6 +97,10 @@ instance : Num Float where
   beq := fun a b => a == b
   trunc := floatTrunc
   abs := Float.abs
+  truncInt := fun x =>
+    if x.isNaN || x.isInf then 0 else
+    let (neg, n, d) := floatToRat x
+    if neg then -((n / d : Nat) : Int) else ((n / d : Nat) : Int)
   ofRat := ratToFloat
   parseDec := parseF64
   short := shortStr
